@@ -64,6 +64,17 @@ def main():
             nd[tid] = d
             meta[tid] = (r, k)
             jobs.append({'tid': tid, 'deck': d, 'opts': []})
+            if k > 0:
+                # the same facet in a cell that carries a TRCL (the facet reference must survive the TRCL pass)
+                tid += 1
+                dt = adeck.normalise({'surfs': [dict(r['card'], n=1)],
+                                      'cells': [{'n': 1, 'geom': ['S', -1, k], 'hastrcl': True, 'trclspell': '12',
+                                                 'trcl': {'o': [1, 0, -1], 'm': [0, 1, 0, -1, 0, 0, 0, 0, 1]}},
+                                                {'n': 2, 'geom': ['C', 1]}]})
+                dt['pts'] = d['pts']
+                nd[tid] = dt
+                meta[tid] = (r, k)
+                jobs.append({'tid': tid, 'deck': dt, 'opts': []})
             if k == 0 or thorough:
                 # covariance: the same deck under a general rigid motion
                 tid += 1
